@@ -74,8 +74,28 @@ func c15Gen(r *rng, st *stats) c15Case {
 	return c
 }
 
+// c15Earlier is the document without its declaration directives (an earlier version of it).
+func c15Earlier(text string) string {
+	var out []string
+	skip := false
+	for _, l := range strings.Split(text, "\n") {
+		if strings.HasPrefix(l, "account ") || strings.HasPrefix(l, "commodity ") || strings.HasPrefix(l, "D ") {
+			skip = true
+			continue
+		}
+		if skip && (strings.HasPrefix(l, " ") || strings.HasPrefix(l, "\t")) {
+			continue
+		}
+		skip = false
+		out = append(out, l)
+	}
+	return strings.Join(out, "\n")
+}
+
 // c15Observe runs one fresh server on dir and returns the fingerprint of every response.
-func c15Observe(dir string, c c15Case, hasRoot bool, msgs *[]string) ([]string, []string, error) {
+// history = the same final state is reached through an editing history: every open document was
+// first changed to an earlier version (analysed, caches filled) and then back to its final text.
+func c15Observe(dir string, c c15Case, hasRoot bool, msgs *[]string, history bool) ([]string, []string, error) {
 	root := ""
 	if hasRoot {
 		root = dir
@@ -95,6 +115,29 @@ func c15Observe(dir string, c c15Case, hasRoot bool, msgs *[]string) ([]string, 
 		if !quiesce(base) {
 			return nil, nil, fmt.Errorf("analysis did not finish")
 		}
+	}
+	// every run ends with a full-text change to the final content, so that the workspace index
+	// has seen the open buffers; the history run visits the earlier versions first
+	change := func(n, text string, version int32) {
+		u := fileURI(filepath.Join(dir, n+".journal"))
+		_ = srv.DidChange(ctx, &protocol.DidChangeTextDocumentParams{
+			TextDocument:   protocol.VersionedTextDocumentIdentifier{TextDocumentIdentifier: protocol.TextDocumentIdentifier{URI: u}, Version: version},
+			ContentChanges: []protocol.TextDocumentContentChangeEvent{{Text: text}}})
+		quiesce(base)
+	}
+	if history {
+		for _, n := range c.Open {
+			change(n, c15Earlier(c.Files[n]), 2)
+		}
+		for _, n := range c.Open { // look at the others again while the earlier versions are in force
+			change(n, c15Earlier(c.Files[n]), 3)
+		}
+	}
+	for _, n := range c.Open {
+		change(n, c.Files[n], 4)
+	}
+	for _, n := range c.Open { // and once more, now that every buffer is final
+		change(n, c.Files[n], 5)
 	}
 	for _, n := range c.Open {
 		u := fileURI(filepath.Join(dir, n+".journal"))
@@ -175,7 +218,7 @@ func runC15Child(o opts) error {
 	if err := json.Unmarshal(data, &c); err != nil {
 		return err
 	}
-	_, fps, err := c15Observe(o.corpus, c, o.n == 1, nil)
+	_, fps, err := c15Observe(o.corpus, c, o.n == 1, nil, false)
 	if err != nil {
 		return err
 	}
@@ -201,11 +244,19 @@ func c15Run(c c15Case, st *stats) (string, error) {
 		var ns []string
 		var runs [][]string
 		for i := 0; i < c.Reps; i++ {
-			n, fps, err := c15Observe(dir, c, hasRoot, &msgs)
+			n, fps, err := c15Observe(dir, c, hasRoot, &msgs, false)
 			if err != nil {
 				return "", err
 			}
 			ns = n
+			runs = append(runs, fps)
+		}
+		// the same final state reached through an editing history
+		for i := 0; i < 2; i++ {
+			_, fps, err := c15Observe(dir, c, hasRoot, nil, true)
+			if err != nil {
+				return "", err
+			}
 			runs = append(runs, fps)
 		}
 		// fresh processes
@@ -281,7 +332,7 @@ func c15Run(c c15Case, st *stats) (string, error) {
 }
 
 func runC15(o opts) error {
-	st := newStats("C15", o.seed, "case = a directory main (includes a, b) with shared payees, accounts, commodities, conflicting commodity formats and transactions off balance in 2..3 commodities; one or two documents open; every response (diagnostics, completion lists with order and details, references, hover, definition, document and workspace symbols, inline completion, formatting) is fingerprinted on 24 fresh in-process servers and 2 fresh processes, with and without workspace root; non-trivial = a multi-commodity imbalance or two open documents; distinct by hash")
+	st := newStats("C15", o.seed, "case = a directory main (includes a, b) with shared payees, accounts, commodities, conflicting commodity formats and transactions off balance in 2..3 commodities; one or two documents open; every response (diagnostics, completion lists with order and details, references, hover, definition, document and workspace symbols, inline completion, formatting) is fingerprinted on 24 fresh in-process servers, 2 servers that reach the same final state through an editing history (every open document changed to a version without its declarations, analysed, and changed back) and 2 fresh processes, with and without workspace root; non-trivial = a multi-commodity imbalance or two open documents; distinct by hash")
 	return runGeneric(o, st, "case", func(raw json.RawMessage) (string, bool, string, error) {
 		var c c15Case
 		if err := json.Unmarshal(raw, &c); err != nil {
